@@ -1,4 +1,4 @@
-#!/usr/bin/env python3
+#!/venv/bin/python
 """tools/seed.py <PROP> <n> [--also C03,C20] [--all-if-missed]
 Validate a property-breaking change delivered under /tmp/mut/<PROP>/out/<n>/ (patch.diff, demo.py,
 notes.md) on a scratch worktree of /repo's HEAD, run the checks against it, and keep it as
@@ -72,6 +72,17 @@ def main():
                         pass
             caught[p] = {"exit": c.returncode, "summary": last[-220:], "mechanisms": sorted(set(str(m) for m in mechs))[:8], "wall_s": round(time.time() - t0)}
             meta["ran"].append("VERIF_REPO=<scratch> ./check %s --tier quick" % p)
+        if "--all-if-missed" in sys.argv and not any(v["exit"] == 1 for v in caught.values()):
+            from vf.registry import REG
+            for p in sorted(REG):
+                if p in caught:
+                    continue
+                c = sh([os.path.join(ROOT, "check"), p, "--tier", "quick", "--no-evidence"], env=dict(os.environ, VERIF_REPO=w), cwd=ROOT, timeout=3600)
+                last = (c.stdout.strip().splitlines() or ["?"])[-1]
+                caught[p] = {"exit": c.returncode, "summary": last[-220:]}
+                meta["ran"].append("VERIF_REPO=<scratch> ./check %s --tier quick" % p)
+                if c.returncode == 1:
+                    break
         meta["checks"] = caught
         meta["caught_by"] = [p for p, v in caught.items() if v["exit"] == 1]
         valid = meta["demo_clean"]["rc"] == 0 and meta["demo_patched"]["rc"] != 0 and meta["suite_ok"]
@@ -87,7 +98,10 @@ def main():
                 shutil.copy(os.path.join(src, "notes.md"), os.path.join(dst, "notes.md"))
             with open(os.path.join(dst, "meta.json"), "w") as f:
                 json.dump(meta, f, indent=1)
-        print(json.dumps({k: meta[k] for k in ("property", "n", "applies", "suite_ok", "confirmed", "caught_by", "demo_clean", "demo_patched", "checks")}, indent=1)[:2500])
+        print("SEED %s-%s applies=%s suite_ok=%s demo_clean_rc=%s demo_patched_rc=%s confirmed=%s caught_by=%s" % (
+            prop, n, meta["applies"], meta["suite_ok"], meta["demo_clean"]["rc"], meta["demo_patched"]["rc"], meta["confirmed"], meta["caught_by"]))
+        for p, v in caught.items():
+            print("   %s exit=%s %s %s" % (p, v["exit"], v.get("mechanisms", ""), v["summary"][-150:]))
         return 0
     finally:
         sh("git -C /repo worktree remove --force %s" % w)
